@@ -6,20 +6,14 @@ client operation (`handle`), the generic request path (`genericHandle`), the
 length-prefixed receive loop (`clientRead` / `clientFrames`) and the whole call
 (`call`, decoder as a parameter).
 
-Full-strength statements hold for every operation except where the code deviates;
-each deviation has a `…_partial` theorem (what still holds) and a witness theorem
-(what the code does instead), so that a repair of the code shows up as a broken
-witness:
-
-  * F-C19-a  a failed response WITHOUT a Result Message (optional in KMIP) makes
-             the result-object / batch-processor / generic paths raise
-             AttributeError (`failure_without_message_partial` +
-             `failure_without_message_raises_attribute_error`);
-  * F-C19-b  `check` never reports a failure: KMIPProxy.check reads the payload of a
-             failed response, which has none (`check_failure_exact_partial` +
-             `check_failure_raises_attribute_error`);
-  * F-C19-c  KMIPProxy.discover_versions likewise (`proxy_result_exact` excludes it,
-             `discover_versions_failure_raises_attribute_error`).
+All statements are at full strength, for every operation.  The three deviations
+found when this check was built — F-C19-a a failed response without a Result
+Message raised AttributeError, F-C19-b `check` and F-C19-c `discover_versions`
+never reported a failure — were repaired in /repo (fix commits fdfcfa2, 6f5b80b);
+the model follows the repaired code, the former `…_partial` statements are now the
+unrestricted ones and their witnesses are gone.  A regression of the code shows up
+in the correspondence and under the monitors' signatures
+`c19:failure-without-message:*`, `c19:failure-not-reported:<op>:*`.
 -/
 import KmipModel.Client
 import KmipModel.Lemmas.Client
@@ -48,53 +42,36 @@ def resCls : Op → ResCls
 
 /-- **client_result_exact.**  For every ProxyKmipClient operation and every response
 item: a successful response (operation echoed, payload present — both mandatory in
-KMIP) makes the method return exactly the payload data; an unsuccessful one carrying
-a reason and a message makes it raise the operation-failure error with exactly that
-(status, reason, message).  `check` is excluded from the failure half (F-C19-b). -/
+KMIP) makes the method return exactly the payload data; an unsuccessful one (a
+Result Reason is mandatory in KMIP) makes it raise the operation-failure error with
+exactly that (status, reason, message) — the message being whatever the response
+carries, `none` (Python `None`) when the optional Result Message is absent. -/
 theorem client_result_exact {P} (op : Op) (it : Item P) (hpie : op.isPie = true) :
     (∀ p, it.status = 0 → it.echo = .same → it.payload = some p →
         handle op it = .returned (specData op p)) ∧
-    (∀ r m, op ≠ .check → it.status ≠ 0 → it.reason = some r → it.message = some m →
-        handle op it = .failure (failCls op) it.status r (some m)) := by
+    (∀ r, it.status ≠ 0 → it.reason = some r →
+        handle op it = .failure (failCls op) it.status r it.message) := by
   constructor
   · intro p hs he hp
     cases op <;>
       simp_all [handle, Op.style, Op.isPie, successResultObject, successBatchProcessor, genericHandle,
         Echo.lift, dataOf, specData]
-  · intro r m hc hs hr hm
+  · intro r hs hr
     cases op <;>
       simp_all [handle, Op.style, Op.isPie, raiseFromResultObject, raiseFromDict, genericHandle, failCls]
 
-/-- The failure half for `check`, which only holds when the failed response carries a
-payload (it never does). -/
-theorem check_failure_exact_partial {P} (it : Item P) (r : Nat) (p : P)
-    (hs : it.status ≠ 0) (hr : it.reason = some r) (hp : it.payload = some p) :
-    handle .check it = .failure .pie it.status r it.message := by
-  simp_all [handle, Op.style, raiseFromDict]
+/-- **failure_with_message_exact**: the reading with a Result Message present. -/
+theorem failure_with_message_exact {P} (op : Op) (it : Item P) (r : Nat) (m : String)
+    (hpie : op.isPie = true) (hs : it.status ≠ 0) (hr : it.reason = some r) (hm : it.message = some m) :
+    handle op it = .failure (failCls op) it.status r (some m) := by
+  rw [← hm]; exact (client_result_exact op it hpie).2 r hs hr
 
-/-- F-C19-b witness: a failed Check response (no payload) is an AttributeError,
-whatever status, reason and message it carries. -/
-theorem check_failure_raises_attribute_error {P} (it : Item P) (hp : it.payload = none) :
-    handle .check it = .raised .attributeError := by
-  simp_all [handle, Op.style]
-
-/-- **failure_without_message_partial.**  Without a Result Message the failure is still
-reported exactly — message `None` — by the dictionary-style operations. -/
-theorem failure_without_message_partial {P} (op : Op) (it : Item P) (r : Nat)
-    (hst : op.style = .dict) (hc : op ≠ .check)
-    (hs : it.status ≠ 0) (hr : it.reason = some r) (hm : it.message = none) :
-    handle op it = .failure .pie it.status r none := by
-  cases op <;> simp_all [handle, Op.style, raiseFromDict]
-
-/-- F-C19-a witness: on every other ProxyKmipClient operation a failed response
-without a Result Message raises AttributeError instead of the operation-failure error. -/
-theorem failure_without_message_raises_attribute_error {P} (op : Op) (it : Item P)
-    (hpie : op.isPie = true) (hst : op.style ≠ .dict)
-    (hs : it.status ≠ 0) (hm : it.message = none) :
-    handle op it = .raised .attributeError := by
-  cases op <;>
-    simp_all [handle, Op.style, Op.isPie, raiseFromResultObject, genericHandle] <;>
-    cases it.reason <;> rfl
+/-- **failure_without_message_exact**: without a Result Message (optional in KMIP) the
+failure is still reported exactly, with message `None`, by EVERY ProxyKmipClient operation. -/
+theorem failure_without_message_exact {P} (op : Op) (it : Item P) (r : Nat)
+    (hpie : op.isPie = true) (hs : it.status ≠ 0) (hr : it.reason = some r) (hm : it.message = none) :
+    handle op it = .failure (failCls op) it.status r none := by
+  rw [← hm]; exact (client_result_exact op it hpie).2 r hs hr
 
 /-- **never_success_on_failure.**  For every operation and every item whose status is
 not Success — with or without reason, message, payload, echoed operation — the client
@@ -123,7 +100,7 @@ theorem generic_never_success_on_failure {P} (echo : Echo3) (status : Nat) (reas
     (message : Option String) (payload : Option P) (hs : status ≠ 0) (d : Data P) :
     genericHandle echo status reason message payload ≠ .returned d := by
   simp only [genericHandle, hs, ne_eq, not_false_eq_true, if_true]
-  cases reason <;> cases message <;> simp
+  cases reason <;> simp
 
 /-- The generic path returns data only for: Success, the request's operation echoed, payload present. -/
 theorem generic_returns_only_matching {P} (echo : Echo3) (status : Nat) (reason : Option Nat)
@@ -132,26 +109,18 @@ theorem generic_returns_only_matching {P} (echo : Echo3) (status : Nat) (reason 
     status = 0 ∧ echo = .same ∧ ∃ p, payload = some p ∧ d = .proj p := by
   unfold genericHandle at h
   split at h
-  · cases reason <;> cases message <;> simp at h
+  · cases reason <;> simp at h
   · rename_i hs
     have hs0 : status = 0 := by omega
     cases echo <;> cases payload <;> simp at h
     exact ⟨hs0, rfl, _, rfl, h.symm⟩
 
 /-- **proxy_result_exact.**  The KMIPProxy-only operations hand back a result object
-with exactly the response's status, reason, message and payload — except
-discover_versions on a response without payload (F-C19-c). -/
+with exactly the response's status, reason, message and payload — successful or not. -/
 theorem proxy_result_exact {P} (op : Op) (it : Item P) (hprox : op.isPie = false)
-    (he : it.echo = .same) (hd : op ≠ .discoverVersions ∨ it.payload.isSome = true) :
+    (he : it.echo = .same) :
     handle op it = .result (resCls op) it.status it.reason it.message it.payload := by
   cases op <;> simp_all [handle, Op.style, Op.isPie, proxyResult, resCls]
-  cases hp : it.payload <;> simp_all
-
-/-- F-C19-c witness. -/
-theorem discover_versions_failure_raises_attribute_error {P} (it : Item P)
-    (he : it.echo = .same) (hp : it.payload = none) :
-    handle .discoverVersions it = .raised .attributeError := by
-  simp_all [handle, Op.style, proxyResult]
 
 /-- A request-level error (no operation echoed) reaches the caller of a KMIPProxy-only
 operation as a bare OperationResult with the response's status, reason, message. -/
@@ -301,17 +270,17 @@ example : handle .destroy okItem = .returned .unit := by decide
 example : handle .create failItem = .failure .pie 1 1 (some "nope") := by decide
 example : handle .deleteAttribute failItem = .failure .core 1 1 (some "nope") := by decide
 example : handle .encrypt failItemNoMsg = .failure .pie 1 1 none := by decide
-example : handle .destroy failItemNoMsg = .raised .attributeError := by decide
-example : handle .check failItem = .raised .attributeError := by decide
-example : handle .discoverVersions failItem = .raised .attributeError := by decide
+example : handle .destroy failItemNoMsg = .failure .pie 1 1 none := by decide
+example : handle .setAttribute failItemNoMsg = .failure .core 1 1 none := by decide
+example : handle .check failItem = .failure .pie 1 1 (some "nope") := by decide
+example : handle .discoverVersions failItem = .result .discoverVersionsResult 1 (some 1) (some "nope") none := by decide
 example : handle .query failItem = .result .queryResult 1 (some 1) (some "nope") none := by decide
-/-- hypotheses of `client_result_exact` (both halves), `failure_without_message_partial`
-and its witness are satisfiable -/
+/-- the hypotheses of `client_result_exact` (both halves), `failure_with_message_exact`,
+`failure_without_message_exact` and `proxy_result_exact` are satisfiable -/
 example : Op.create.isPie = true ∧ okItem.status = 0 ∧ okItem.echo = .same ∧ okItem.payload = some "uid-1" := by decide
-example : Op.create ≠ .check ∧ failItem.status ≠ 0 ∧ failItem.reason = some 1 ∧ failItem.message = some "nope" := by decide
-example : Op.encrypt.style = .dict ∧ Op.encrypt ≠ .check ∧ failItemNoMsg.message = none := by decide
-example : Op.destroy.isPie = true ∧ Op.destroy.style ≠ .dict := by decide
-example : Op.query.isPie = false ∧ (Op.query ≠ .discoverVersions ∨ failItem.payload.isSome = true) := by decide
+example : Op.check.isPie = true ∧ failItem.status ≠ 0 ∧ failItem.reason = some 1 ∧ failItem.message = some "nope" := by decide
+example : Op.destroy.isPie = true ∧ failItemNoMsg.status ≠ 0 ∧ failItemNoMsg.reason = some 1 ∧ failItemNoMsg.message = none := by decide
+example : Op.discoverVersions.isPie = false ∧ failItem.echo = .same := by decide
 
 /-- a 2-byte-body message and three ways of delivering it -/
 def demoFrame : Bytes := [0x42, 0, 0x7b, 1, 0, 0, 0, 2, 0xAA, 0xBB]
